@@ -83,6 +83,8 @@ pub struct Exec {
     pub abort_after_fault: bool,
     /// the operation being checked is a restricted-storage join (event discrepancies concern C13 too)
     pub restrict_op: bool,
+    /// the operation in progress passed the handle of a dead entity to a storage access
+    pub stale_op: bool,
     pub zst_dropped_seen: u64,
 }
 
@@ -138,6 +140,7 @@ impl Exec {
             final_fault: None,
             abort_after_fault: false,
             restrict_op: false,
+            stale_op: false,
             zst_dropped_seen: 0,
         };
         ex.prealloc()?;
@@ -1144,7 +1147,18 @@ impl Exec {
             }
             if !match_events(&real, &exp) {
                 return Err(self.viol(
-                    if self.restrict_op { &["C12", "C13"] } else { &["C12"] },
+                    &{
+                        let mut ps = vec!["C12"];
+                        if self.restrict_op {
+                            ps.push("C13");
+                        }
+                        if self.stale_op {
+                            // an event nobody asked for right after a dead handle was used: the
+                            // access reached the storage although the handle is stale
+                            ps.push("C03");
+                        }
+                        ps
+                    },
                     "event-stream",
                     format!(
                         "slot {} ({}): events {:?}, expected {:?} (must=true are demanded, must=false are allowed)",
